@@ -245,6 +245,10 @@ def check_c16_uris(ctx, sched):
                     violation("C16", "uri-roundtrip", "documentSymbol lists units that are not in the asked document",
                               f"asked {asked!r}: {foreign[:5]!r} do not occur in its text", op=o["op"])
                     break
+    # files that existed at some point of the session (a deleted file the client has not closed, or
+    # whose deletion it has not announced, is still a document of the workspace to the server)
+    ever = {os.path.normpath(p_) for p_ in sched.get("tree", {}) if not p_.endswith("/")}
+    ever |= {os.path.normpath(op_["path"]) for op_ in sched.get("ops", []) if op_.get("k") == "env" and op_.get("do") == "write"}
     seen = set()
     for o in d.out:
         uris = []
@@ -260,7 +264,7 @@ def check_c16_uris(ctx, sched):
                 violation("C16", "uri-emit", "server emitted an undecodable URI", f"{u!r}: {e!r}",
                           op=o["op"])
                 return
-            if p not in w.files and p not in w.dirs:
+            if p not in w.files and p not in w.dirs and p not in ever:
                 violation("C16", "uri-emit", "server emitted a URI that decodes to no file of the workspace",
                           f"{u!r} -> {p!r}", op=o["op"])
                 return
